@@ -442,6 +442,10 @@ class Terms:
             t = blk["term"]
             if t["k"] != "call":
                 continue
+            if call_name(t) in ("std::iter::Iterator::next", "std::iter::DoubleEndedIterator::next_back"):
+                # advancing an iterator: the element read is modelled as next(<collection>)?,
+                # the iterator's own state is not a value any rule looks at
+                continue
             for ai, a in enumerate(t["args"]):
                 pl = a.get("m") or a.get("c")
                 if pl and not pl["p"] and pl["l"] in self.mutrefs:
